@@ -171,7 +171,7 @@ CLAIMED = {
         text="Machine-checked (Coq 8.16), all texts (lists of code points of any length) and all integer "
              "positions, over Gen/text.v (left, right, mid, replace, find, exact, upper, lower, len_, concatenate "
              "re-translated from /repo/src/pycel/lib/text.py on every run) wrapped by Model/Text.v's model of "
-             "strs_wrapper/nums_wrapper/error_string_wrapper. FULL (30 theorems in all, closed under the global "
+             "strs_wrapper/nums_wrapper/error_string_wrapper. FULL (31 theorems in all, closed under the global "
              "context): C20_left_chars, C20_mid_chars, C20_partition (LEFT(s,n)&MID(s,n+1,LEN s)=s), C20_right "
              "(last min(k,LEN) characters), C20_right_fraction (count in [0,1) gives the empty text), C20_replace "
              "(=LEFT&t&MID), C20_negative_counts (#VALUE!), C20_number_rendering (z and z.0 are the digits of z, "
@@ -200,7 +200,8 @@ CLAIMED = {
              "C20_text_grammar_decidable (parse_fmt s = Some F iff fmt_ok F and s = fmt_string F), C20_text_modes (half_away q = floor(q+1/2); the modes agree off the ties and on "
              "a tie differ exactly when the floor is even), digit level C20_text_digits (str_of_Z n is the "
              "base-ten numeral of n without leading zero), C20_text_fraction (the d-digit fraction and its "
-             "dropped zeros), C20_text_grouping (the two equations and comma-erasure of group3). The clause as "
+             "dropped zeros), C20_text_grouping (the two equations and comma-erasure of group3), C20_text_padding (for \"#..#0..0\" / "
+             "\"0..0#..#\" the padding is max(0, number of '0' minus number of digits) zeros). The clause as "
              "stated (half away on ties) is REFUTED by the model (advisory witness, known finding "
              "C20-text-half-even): Refuted/C20_text_rounding.v, TEXT(2.5,\"0\")=\"2\", "
              "TEXT(0.125,\"0.00\")=\"0.12\"; Example ex_tie exhibits both renderings. NOT CLAIMED: Excel's "
